@@ -251,7 +251,7 @@ pub fn run(tier: &str) -> i32 {
             alpha,
             oracle: C07,
         };
-        let e = explore(&m, &Limits::new(3, if quick { 55 } else { 6000 }));
+        let e = explore(&m, &Limits::new(3, if quick { 300 } else { 6000 }));
         rep.absorb(
             &format!("TREE net={} theta={} n={} D={:?} bodies={:?} budgets={:?} upgrades<={}", net, theta, n, diffs, bodies, budgets, ups),
             e,
